@@ -48,6 +48,78 @@ def parse_gen(out):
     return states, edges
 
 
+def cover_walks(g, eidx, init, max_len, rng):
+    """Walks from the initial state such that every transition reachable from it is on one of them.
+    Greedy: follow an uncovered transition if the current state has one, otherwise take the shortest
+    path (over any transitions) to the nearest state that has one; a walk ends when nothing uncovered
+    is within reach or it is max_len long.  (vlib.edge_cover_paths restarts from the initial state
+    whenever it is stuck, which gives several times more steps on this graph.)"""
+    from collections import deque
+    todo = {s: list(range(len(outs))) for s, outs in g.out.items()}
+    for s in todo:
+        rng.shuffle(todo[s])
+
+    def nearest(src):
+        prev = {src: None}
+        dq = deque([src])
+        while dq and len(prev) < 400:     # bounded search: beyond that a new walk from the initial state is cheaper
+            s = dq.popleft()
+            if todo.get(s) and s != src:
+                path = []
+                while prev[s] is not None:
+                    ps, k = prev[s]
+                    path.append((ps, k))
+                    s = ps
+                path.reverse()
+                return path
+            for k, (d, _) in enumerate(g.out.get(s, [])):
+                if d not in prev:
+                    prev[d] = (s, k)
+                    dq.append(d)
+        return None
+
+    # shortest path from the initial state to every state (used to start a walk)
+    parent, order = {init: None}, [init]
+    dq = deque([init])
+    while dq:
+        s = dq.popleft()
+        for k, (d, _) in enumerate(g.out.get(s, [])):
+            if d not in parent:
+                parent[d] = (s, k)
+                order.append(d)
+                dq.append(d)
+    walks, nxt = [], 0
+    while True:
+        while nxt < len(order) and not todo.get(order[nxt]):
+            nxt += 1
+        if nxt == len(order):
+            break
+        path, s = [], order[nxt]
+        while parent[s] is not None:
+            path.append(parent[s])
+            s = parent[s][0]
+        path.reverse()
+        w = [eidx[e] for e in path]
+        for e in path:                       # transitions on the way count as covered
+            if e[1] in todo[e[0]]:
+                todo[e[0]].remove(e[1])
+        cur = order[nxt]
+        while len(w) < max_len:
+            if todo.get(cur):
+                k = todo[cur].pop()
+                w.append(eidx[(cur, k)])
+                cur = g.out[cur][k][0]
+                continue
+            path = nearest(cur)
+            if path is None or len(w) + len(path) >= max_len:
+                break
+            for (s, k) in path:
+                w.append(eidx[(s, k)])
+            cur = g.out[path[-1][0]][path[-1][1]][0]
+        walks.append(w)
+    return walks
+
+
 def obs_json(o):
     return {"acct": o["acct"], "store": o["store"], "hv": o["hv"], "live": o["live"], "depth": o["depth"], "ncommit": o["ncommit"]}
 
@@ -75,8 +147,11 @@ def run(c):
                      "handles opened after a block snapshot die with a revert to it, Update/Commit invalidate snapshots, Commit follows Update",
                      "roots compared with the canonical sparse Merkle root of the contents (history independence, C10)",
                      "TLC 1.8.0"]
-    # 1. exhaustive design-level checks
-    if not thorough:
+    # 1. exhaustive design-level checks (VERIF_C12_FAST=1 skips them: a developer switch used while trying
+    #    mutations of the code, the design-level runs do not depend on the code)
+    if os.environ.get("VERIF_C12_FAST") == "1":
+        c.notes.append("VERIF_C12_FAST=1: design-level TLC runs skipped")
+    elif not thorough:
         res = vlib.tlc(SPEC_DIR, "MC_StateBuffer", "MC_StateBuffer.cfg", c.work, timeout=900)
         c.require_ok(res, "StateBuffer design: mechanism refines reference (2 contracts, 1 key, 2 values, <=2 log entries, 2 snapshot levels)")
     else:
@@ -91,6 +166,7 @@ def run(c):
     t0 = time.time()
     gen = vlib.tlc(SPEC_DIR, "MC_StateBuffer", gcfg, c.work, timeout=2400, args=["-fp", "1"])
     c.require_ok(gen, "StateBuffer transition enumeration (%s)" % gcfg)
+    tparse = time.time()
     states, edges = parse_gen(gen.out)
     if len(edges) < 1000 or len(states) < 100:
         raise vlib.Infra("too few transitions generated: %d states, %d transitions" % (len(states), len(edges)))
@@ -115,8 +191,7 @@ def run(c):
         eidx[(s, len(g.out.setdefault(s, [])))] = len(E)
         g.out[s].append((d, ak))
         E.append([sid[s], aid[ak], sid[d]])
-    paths = vlib.edge_cover_paths(g, max_len=60, rng=rng)
-    walks = [[eidx[e] for e in p] for p in paths]
+    walks = cover_walks(g, eidx, inits[0], 250, rng)
     covered = {e for w in walks for e in w}
     reachable = set()
     stack = [inits[0]]
@@ -129,8 +204,8 @@ def run(c):
     want = {i for i, e in enumerate(E) if skeys[e[0]] in reachable}
     if covered != want:
         raise vlib.Infra("edge cover incomplete: %d of %d" % (len(covered), len(want)))
-    vlib.log("C12: graph %d states, %d transitions, %d walks, %d steps (gen+plan %.1fs)" % (
-        len(states), len(E), len(walks), sum(len(w) for w in walks), time.time() - t0))
+    vlib.log("C12: graph %d states, %d transitions, %d walks, %d steps (TLC %.1fs, parse+plan %.1fs)" % (
+        len(states), len(E), len(walks), sum(len(w) for w in walks), tparse - t0, time.time() - tparse))
     nm = names_of(os.path.join(SPEC_DIR, gcfg))
     rnd = dict(walks=64, ops=200, accts=3, ctrs=3, keys=4, vals=5, maxsnap=6, traced=12)
     if thorough:
@@ -142,8 +217,10 @@ def run(c):
     json.dump(inp, open(inpath, "w"))
     outpath = os.path.join(c.work, "sb_out.json")
     tracepath = os.path.join(c.work, "sb_trace.ndjson")
+    tgo = time.time()
     rc, output = vlib.go_test("./state/", "^TestVerifStateBuffer$", env={"VERIF_IN": inpath, "VERIF_OUT": outpath,
                               "VERIF_TRACE": tracepath, "VERIF_SEED": c.seed, "VERIF_TIER": c.tier}, timeout=3000)
+    vlib.log("C12: harness %.1fs" % (time.time() - tgo))
     r = c.absorb_go(outpath, output)
     if rc != 0 and not r.get("violations"):
         raise vlib.Infra("harness failed:\n" + output[-3000:])
